@@ -348,7 +348,7 @@ func init() {
 			Expect: []string{"C17.R3@"}, Why: "objects without observedGeneration are compared with 0 and fail"},
 		Mutant{Prop: "C17", Name: "r4-shared-lookup-caller-compares-less-than", File: og,
 			Old: ogIf, New: tOgIfLookup,
-			More: []Edit{{File: og, Old: tOgImport, New: ""}, {File: cnd, Old: cndGen, New: strings.Replace(tCndGenLookup, "observedGeneration != obj", "observedGeneration < obj", 1)}, {File: prb, Old: tProbeTail, New: tLookup("false", "true")}},
+			More:   []Edit{{File: og, Old: tOgImport, New: ""}, {File: cnd, Old: cndGen, New: strings.Replace(tCndGenLookup, "observedGeneration != obj", "observedGeneration < obj", 1)}, {File: prb, Old: tProbeTail, New: tLookup("false", "true")}},
 			Expect: []string{"C17.R4@"}},
 	)
 }
